@@ -63,3 +63,22 @@ Theorem C12_returned_match_within_working_set : forall tol2 mm mind2 maxd2 s2 se
   tumble tol2 mm mind2 maxd2 s2 sel pts t0 = Some (m, z, a, b) -> exists z1 a1 b1, match_all tol2 z1 a1 b1 sel pts = Some m.
 Proof. exact tumble_match_within_working_set. Qed.
 Print Assumptions C12_returned_match_within_working_set.
+
+Import ListNotations.
+(* ---- non-vacuity: the hypotheses above are met by concrete inputs (computed inside Coq) ---- *)
+Open Scope Q_scope.
+Definition nv_pts : list peak :=
+  [ {| k_w := 1; k_p := (10, 10) |}; {| k_w := 2; k_p := (30, 10) |}; {| k_w := 1; k_p := (10, 32) |};
+    {| k_w := 3#2; k_p := (30, 32) |}; {| k_w := 1#100; k_p := (50, 10) |}; {| k_w := 1; k_p := (20, 21) |} ].
+(* the per-pair search returns a match on this cloud (the weak peak is outside the working set) *)
+Example nv_tumble_some :
+  match do_pair (9#1) 3 (100#1) (1000#1) (1#10) [true; true; true; true; false; true] nv_pts (10, 10) (20, 0) (0, 22) with Some (m, _, _, _) => count_some m = 4%Z | None => False end.
+Proof. vm_compute. reflexivity. Qed.
+
+(* a loop run with two matches *)
+Example nv_full_match_two_matches :
+  let o := full_match 2%Z [true; true; true; true; true; false] [true; false; false; false; false; false] false
+                      [Some [true; true; true; false; false; false]; Some [true; false; false; true; true; false]; None] in
+  length (o_matches o) = 2%nat /\ o_ok o = true.
+Proof. vm_compute. split; reflexivity. Qed.
+
